@@ -493,6 +493,75 @@ def _law_case(args):
     return cnt, out
 
 
+def _large_batch_case(args):
+    """One call with 70001 / 200003 events (a pool of supported probes
+    repeated, a few unsupported ones in between): every event gets the value
+    it gets in a call of its own pool, at the start, in the middle and at
+    the very end of the batch - global and per-event temperature."""
+    lut_id, scratch = args
+    from dclab.features.emodulus import get_emodulus, load_lut
+    out = []
+    cnt = 0
+    lut_arg, featx = _resolve_lut(lut_id, scratch)
+    lut, meta = load_lut(lut_arg)
+    lut = np.array(lut, dtype=float)
+    keyx = "area_um" if featx == "area_um" else "volume"
+    px_ = np.percentile(lut[:, 0], [30, 50, 60, 70, 40, 55, 45])
+    pd_ = np.percentile(lut[:, 1], [40, 50, 45, 60, 55, 35, 50])
+    # one probe far outside the table
+    px_ = np.append(px_, lut[:, 0].max() * 3)
+    pd_ = np.append(pd_, 0.001)
+    case0 = {"kind": "large-batch", "lut": lut_id}
+    for n in (70001, 200003):
+        reps = -(-n // len(px_))
+        x = np.tile(px_, reps)[:n]
+        d = np.tile(pd_, reps)[:n]
+        for tname, temp in (("scalar", 23.0),
+                            ("per-event", 22.0 + (np.arange(n) % 5))):
+            cnt += 1
+            kw = dict(medium="CellCarrier", channel_width=20.0,
+                      flow_rate=0.04, px_um=0.34,
+                      visc_model="buyukurganci-2022", lut_data=lut_arg)
+            try:
+                big_ = np.asarray(get_emodulus(
+                    deform=d.copy(), temperature=temp, **{keyx: x.copy()},
+                    **kw))
+                if tname == "scalar":
+                    small = np.asarray(get_emodulus(
+                        deform=pd_.copy(), temperature=23.0,
+                        **{keyx: px_.copy()}, **kw))
+                    want = np.tile(small, reps)[:n]
+                else:
+                    # per temperature value, the pool on its own
+                    want = np.empty(n)
+                    for t in range(5):
+                        small = np.asarray(get_emodulus(
+                            deform=pd_.copy(), temperature=22.0 + t,
+                            **{keyx: px_.copy()}, **kw))
+                        idx = np.flatnonzero(np.arange(n) % 5 == t)
+                        want[idx] = small[idx % len(px_)]
+            except Exception as e:
+                out.append(violation(
+                    GE, "exception", dict(case0, n=n, temperature=tname),
+                    f"{type(e).__name__}: {e}",
+                    {"lut": lut_id.split(":")[0], "exc": type(e).__name__}))
+                continue
+            okv = np.isclose(big_, want, rtol=RT(lut_id, 1e-9), atol=0,
+                             equal_nan=True)
+            if not okv.all():
+                badi = np.flatnonzero(~okv)
+                out.append(violation(
+                    GE, "depends-on-batch", dict(case0, n=n,
+                                                 temperature=tname),
+                    f"{lut_id}, one call with {n} events ({tname} "
+                    f"temperature): {badi.size} events differ from the "
+                    f"call with their pool alone, first at "
+                    f"{badi[:3].tolist()}, last at {badi[-3:].tolist()}: "
+                    f"{big_[badi[-1]]!r} vs {want[badi[-1]]!r}",
+                    {"lut": lut_id.split(":")[0], "scope": "large-input"}))
+    return cnt, out, cnt
+
+
 def _iso_case(args):
     """The isoelasticity lines that dclab ships for a table, converted to a
     set-up (channel width, flow rate, viscosity, with / without the
@@ -630,6 +699,9 @@ def run(ctx):
     res = par.pmap(_lut_case, items)
     res += par.pmap(_law_case, [(lid, scratch) for lid in LUTS])
     res += par.pmap(_replace_case, [(scratch,)])
+    res += par.pmap(_large_batch_case, [
+        (lid, scratch) for lid in ("builtin:LE-2D-FEM-19", "tuple:userA",
+                                   "builtin:HE-3D-FEM-22")])
     res += par.pmap(_iso_case, [(lid,) for lid in (
         "LE-2D-FEM-19", "HE-2D-FEM-22", "HE-3D-FEM-22")])
     res += par.pmap(_node_case, [(lid,) for lid in LUTS
@@ -668,6 +740,9 @@ def run(ctx):
 
 
 def replay(case, ctx):
+    if case["kind"] == "large-batch":
+        return [v for v in _large_batch_case((case["lut"], ctx.scratch))[1]
+                if v["case"] == case]
     if case["kind"] == "iso":
         return [v for v in _iso_case((case["lut"],))[1]
                 if v["case"] == case]
